@@ -257,6 +257,10 @@ C03_atomic(c, G, o) ==
       (k > 1 /\ o.steps[k].tr # 0) =>
          LET cb == ConfBefore(o.pre.conf, o.steps, k) IN cb = {} \/ Stable(c, cb)
 
+(* ... and default children are entered until stable: the macro step ends in a stable configuration *)
+C03_complete(c, G, o) ==
+  C03_applies(c, G, o) => (o.post.conf = {} \/ Stable(c, o.post.conf))
+
 (* the scope of one transition: exit set and entry path *)
 C03_scope(c, G, o) ==
   C03_applies(c, G, o) =>
@@ -629,6 +633,7 @@ Bad(c, G, o) ==
     Check(<<"C03", "sent">>, C03_sent(c, G, o)),
     Check(<<"C03", "context">>, C03_context(c, G, o)),
     Check(<<"C03", "atomic">>, C03_atomic(c, G, o)),
+    Check(<<"C03", "complete">>, C03_complete(c, G, o)),
     Check(<<"C03", "scope">>, C03_scope(c, G, o)),
     Check(<<"C03", "order">>, C03_order(c, G, o)),
     Check(<<"C03", "stab">>, C03_stab(c, G, o)),
